@@ -86,8 +86,11 @@ CHECKS = {
         design='DESIGN.md section 4 (C07)'),
     'C10': dict(
         level='exploration',
-        technique='bounded stand-in only: run-time evaluation of the unification contract (independent term-level matcher as oracle) on enumerated (target, pattern, mode) triples; no deductive proof yet',
-        text=("NOT proved. unify_types is run on ~3 million (quick) / ~13 million (thorough) triples built from term-level class "
+        technique='bounded stand-in: run-time evaluation of the unification contract (independent term-level matcher as oracle) on enumerated (target, pattern, mode) triples; only the binding helper _update_type_var_map is under a deductive contract (z3)',
+        text=("Proved, for every map / key / value: the helper through which unify_types records bindings refuses exactly a "
+              "second, different (by the IR's __eq__) type for an already bound variable, otherwise records key := value, and "
+              "never touches another binding. unify_types itself is NOT proved (DESIGN 10.3 says why: every clause speaks about "
+              "the final assignment, and the match relation is not monotone under extension of the map). It is run on ~3 million (quick) / ~13 million (thorough) triples built from term-level class "
               "tables (bounded variables incl. parameterized and variable bounds, repeated variables, out/in/star projections, "
               "subclass targets for supertype mode; exhaustive to depth 1, related heads to depth 2, plus random families) and "
               "each non-empty answer is checked against an independent matcher written from the statement (pattern under the "
@@ -95,7 +98,7 @@ CHECKS = {
               "open positions, one type per variable, exceptions are violations)."),
         note=("bounded: nothing is claimed beyond the enumerated inputs; one known finding (own class parameter leaks in "
               "supertype mode) is listed in known_findings.json; two genuine defects were repaired in /repo (fix: commit)"),
-        design='DESIGN.md section 4 (C10)'),
+        design='DESIGN.md section 4 (C10), 10.3'),
     'C17': dict(
         level='proof',
         technique='deductive verification by induction over construction sites (slice mode of the VC generator: unsupported statements are havocked, obligations sit at the sites) with z3; bounded walk of generated programs under the 16 switch combinations',
@@ -145,8 +148,8 @@ CHECKS = {
               "contract (C06) does not cover _construct_related_types. The bounded check enumerates, for a family of class tables "
               "(plain, generic, variance, nested, bounds, dependent bounds) x every query type x every flag combination, ALL "
               "random-choice paths of the real search, and judges every returned type with a reference relation written from the "
-              "property text. 8 failing input classes were repaired in /repo (three fix commits), 7 remain as known findings."),
-        note="bounded: stated class-table family; random choices enumerated exhaustively per query up to a path budget; 7 known findings (generic classes re-instantiated by the irrelevant-type search, dependent bounds)",
+              "property text. 12 failing input classes were repaired in /repo (four fix commits); what remains are two families of input classes recorded as lists of concrete inputs in known_findings.json."),
+        note="bounded: stated class-table family; random choices enumerated exhaustively per query up to a path budget; known findings pinned to 16 concrete inputs (re-instantiation not seen by the IR's own is_subtype; same-class variation under projections / dependent bounds); the random class tables are a fixed list",
         design='DESIGN.md section 4 (C09)'),
     'C08': dict(
         level='proof',
